@@ -144,10 +144,13 @@ fn rebase(v: &mut Value, base: usize) {
   fix(&mut v["ra"]);
 }
 
-pub fn cmd_tabulate(jobs_path: &str, outdir: &str, shards: usize) {
+pub fn cmd_tabulate(jobs_path: &str, outdir: &str, threads: usize) {
   let text = std::fs::read_to_string(jobs_path).unwrap_or_else(|e| { eprintln!("cannot read {}: {}", jobs_path, e); std::process::exit(2) });
   let root: Value = serde_json::from_str(&text).unwrap_or_else(|e| { eprintln!("bad jobs file: {}", e); std::process::exit(2) });
   let maxstates = root["maxstates"].as_u64().unwrap_or(50000) as usize;
+  // a shard file is closed once it holds this many table states, so that neither this process nor
+  // the TLC process that loads the shard needs memory proportional to the whole family
+  let shard_states = root["shard_states"].as_u64().unwrap_or(40000) as usize;
   let mut jobs: Vec<Job> = vec![];
   for jv in root["jobs"].as_array().expect("jobs") {
     let keys = pkeys(&jv["keys"]).unwrap_or_else(|e| { eprintln!("bad keys: {}", e); std::process::exit(2) });
@@ -166,30 +169,37 @@ pub fn cmd_tabulate(jobs_path: &str, outdir: &str, shards: usize) {
   std::fs::create_dir_all(outdir).unwrap();
   let jobs = std::sync::Arc::new(jobs);
   let mut handles = vec![];
-  for sh in 0..shards {
+  for th in 0..threads {
     let jobs = jobs.clone();
     let outdir = outdir.to_string();
     handles.push(std::thread::spawn(move || {
       let mut hdrs: Vec<Value> = vec![];
-      let mut body: Vec<Value> = vec![];
-      let (mut st, mut tr, mut pn, mut tc) = (0usize, 0usize, 0usize, 0usize);
+      let mut body: Vec<String> = vec![];
+      let mut nfiles = 0usize;
+      let (mut nl, mut st, mut tr, mut pn, mut tc) = (0usize, 0usize, 0usize, 0usize, 0usize);
+      let flush = |hdrs: &mut Vec<Value>, body: &mut Vec<String>, nfiles: &mut usize| {
+        if hdrs.is_empty() { return; }
+        let path = format!("{}/shard_{}_{}.ndjson", outdir, th, nfiles);
+        let mut f = std::io::BufWriter::new(std::fs::File::create(&path).unwrap());
+        writeln!(f, "{}", json!({"layouts": hdrs})).unwrap();
+        for l in body.iter() { writeln!(f, "{}", l).unwrap(); }
+        hdrs.clear(); body.clear(); *nfiles += 1;
+      };
       for (ji, job) in jobs.iter().enumerate() {
-        if ji % shards != sh { continue; }
+        if ji % threads != th { continue; }
         let mut t = tabulate_one(job, maxstates);
         let base = body.len();
         if t.states > 0 { t.hdr["first"] = json!(base + 1); }
-        for mut l in t.lines.drain(..) { rebase(&mut l, base); l["l"] = json!(hdrs.len() + 1); body.push(l); }
+        for mut l in t.lines.drain(..) { rebase(&mut l, base); l["l"] = json!(hdrs.len() + 1); body.push(l.to_string()); }
         hdrs.push(t.hdr);
-        st += t.states; tr += t.transitions; pn += t.panics; if t.truncated { tc += 1; }
+        nl += 1; st += t.states; tr += t.transitions; pn += t.panics; if t.truncated { tc += 1; }
+        if body.len() >= shard_states { flush(&mut hdrs, &mut body, &mut nfiles); }
       }
-      let path = format!("{}/shard_{}.ndjson", outdir, sh);
-      let mut f = std::io::BufWriter::new(std::fs::File::create(&path).unwrap());
-      writeln!(f, "{}", json!({"layouts": hdrs})).unwrap();
-      for l in &body { writeln!(f, "{}", l).unwrap(); }
-      (hdrs.len(), st, tr, pn, tc)
+      flush(&mut hdrs, &mut body, &mut nfiles);
+      (nl, st, tr, pn, tc, nfiles)
     }));
   }
-  let mut tot = (0usize, 0usize, 0usize, 0usize, 0usize);
-  for h in handles { let r = h.join().unwrap(); tot.0 += r.0; tot.1 += r.1; tot.2 += r.2; tot.3 += r.3; tot.4 += r.4; }
-  println!("{}", json!({"layouts": tot.0, "table_states": tot.1, "impl_steps": tot.2, "panics": tot.3, "truncated_layouts": tot.4}));
+  let mut tot = (0usize, 0usize, 0usize, 0usize, 0usize, 0usize);
+  for h in handles { let r = h.join().unwrap(); tot.0 += r.0; tot.1 += r.1; tot.2 += r.2; tot.3 += r.3; tot.4 += r.4; tot.5 += r.5; }
+  println!("{}", json!({"layouts": tot.0, "table_states": tot.1, "impl_steps": tot.2, "panics": tot.3, "truncated_layouts": tot.4, "shards": tot.5}));
 }
